@@ -97,9 +97,12 @@ func (cb *CircuitBreaker) IOHandler(ctx context.Context, request []byte, next co
 		}
 		atomic.StoreUint64(&cb.failCount, cb.threshold>>1)
 	}
+	panicking := true // panic(nil) makes recover return nil: only this tells it from a return
 	defer func() {
 		if e := recover(); e != nil {
 			err = core.NewPanicError(e)
+		} else if panicking {
+			err = core.NewPanicError("panic called with nil argument")
 		}
 		if err != nil {
 			// the time of this failure must be visible before the count that opens the
@@ -111,6 +114,7 @@ func (cb *CircuitBreaker) IOHandler(ctx context.Context, request []byte, next co
 		}
 	}()
 	response, err = next(ctx, request)
+	panicking = false
 	if err == nil {
 		atomic.StoreUint64(&cb.failCount, 0)
 	}
